@@ -313,6 +313,9 @@ let run inp obs : string option * string option =
   | ["RD"; rs; drops; verb; path; cls], [reg; oks; res] ->
     (* C11: path.delRule on the registered trie; judged as "removal = never having registered" *)
     let ms = dec_ruleset rs and path = string_of_hexfield path in
+    (* verb WS: a WebSocket handshake, judged for soundness only (see judge) *)
+    let ws = (verb = "WS") in
+    let verb = if ws then "WEBSOCKET" else verb in
     let dropped = if drops = "-" then [] else L.map int_of_string (String.split_on_char '.' drops) in
     let names = L.map (fun i -> full (L.nth ms i)) dropped in
     if reg = "panic" then (Some "registration panicked", None)
@@ -327,7 +330,7 @@ let run inp obs : string option * string option =
       let spec =
         if st = "panic" then Some "the mux panicked on a request after delRule"
         else if L.mem meth names then Some (Printf.sprintf "the request was routed to %s, whose rules were removed (a stale route)" meth)
-        else match spec_route cls ms' verb path (split3 res) with
+        else match (if ws && meth = "-" then None else spec_route cls ms' verb path (split3 res)) with
           | Some e -> Some ("after removing [" ^ String.concat " " names ^ "] (judged against the rule set without them): " ^ e)
           | None ->
             (* every method has at least its implicit binding: delRule reports true the first time, false after *)
@@ -344,7 +347,7 @@ let run inp obs : string option * string option =
           let moks = if moks = [] then "-" else String.concat "," moks in
           let mres = model_route cls root' verb path in
           if moks <> oks then Some (Printf.sprintf "model of delRule reports [%s], implementation [%s]" moks oks)
-          else if mres <> res then Some (Printf.sprintf "after removal the model routes to %s, implementation answered %s" mres res)
+          else if (not ws) && mres <> res then Some (Printf.sprintf "after removal the model routes to %s, implementation answered %s" mres res)
           else None
         end in
       (spec, model)
